@@ -1,7 +1,5 @@
 SPECIFICATION Spec
 CONSTANTS
   MaxLaw = 6
-  MaxBits = 10
-  MaxArg = 3
-INVARIANTS Laws B_Refines B_ByteLen B_PadZero
+INVARIANTS Laws
 CHECK_DEADLOCK FALSE
